@@ -12,8 +12,8 @@ from typing import (
 import heapq as _heapq
 
 from .builtins import enumerate as a_enumerate, zip as a_zip
-from ._core import aiter, awaitify, ScopedIter, borrow
-from ._typing import AnyIterable, ACloseable, LT, T
+from ._core import aiter, awaitify, ScopedIter, borrow, close_all
+from ._typing import AnyIterable, LT, T
 
 
 class _KeyIter(Generic[LT]):
@@ -149,9 +149,7 @@ async def merge(
             async for item in itr.tail:
                 yield item
     finally:
-        for iterator in iterators:
-            if isinstance(iterator, ACloseable):
-                await iterator.aclose()
+        await close_all(iterators)
 
 
 class ReverseLT(Generic[LT]):
